@@ -6,7 +6,7 @@ from typing import Dict, List, Optional, Set, Tuple
 
 from ..db import ProgramDB, FuncInfo, ClassInfo, AnalysisError, unparse, own_nodes, dotted
 from ..cfg import CFG, Node
-from ..facts import own_calls, call_attr, call_name, local_defs, resolve_call_target, is_cache_switch_call
+from ..facts import own_calls, call_attr, call_name, local_defs, resolve_call_target, is_cache_switch_call, bind_args, fn_params
 from ..framework import inst, HOLDS, VIOLATION, UNDECIDED, INFO, Instance
 from ..boolexpr import guards_of, guard_table
 from .history import BUILTIN_MUTATORS, _mutators_of_type, _field_types, _cache_receivers, coverage_writers
@@ -804,12 +804,18 @@ def rule_replay_dedup(db: ProgramDB) -> List[Instance]:
                 env["p:" + p] = v.value
             else:
                 env["p:" + p] = False if v is None else None
-        if any(val is None for val in env.values()):
-            raise AnalysisError(f"replay call `{unparse(call)}` passes a non-constant flag")
-        try:
-            return all(bool(eval_bool(t, atom, env)) == pol for t, pol in g) and bool(eval_bool(dedup_if.test, atom, env))
-        except AnalysisError:
-            raise
+        # a flag that is not a constant at the call (the caller's own request for false rows) is tried both ways: the answer for a
+        # TRUE row must not depend on it
+        unknown = [k for k, val in env.items() if val is None]
+        answers = set()
+        import itertools as _it2
+        for vals in _it2.product([False, True], repeat=len(unknown)):
+            env2 = dict(env)
+            env2.update(dict(zip(unknown, vals)))
+            answers.add(all(bool(eval_bool(t, atom, env2)) == pol for t, pol in g) and bool(eval_bool(dedup_if.test, atom, env2)))
+        if len(answers) != 1:
+            raise AnalysisError(f"replay call `{unparse(call)}`: whether a duplicate true row is suppressed depends on a non-constant flag")
+        return answers.pop()
     n = 0
     se = db.cls("SymbolicExpression")
     for c in se.all_subclasses():
@@ -1496,4 +1502,87 @@ def rule_retrieve_miss_wildcard(db: ProgramDB) -> List[Instance]:
             out.append(i)
     if not out:
         raise AnalysisError("IndexedCache.retrieve: no test for 'the looked-up value is not stored' found")
+    return out
+
+
+# ---------------------------------------------------------------------------------- REPLAY-FALSE-ASKED
+def rule_replay_false_asked(db: ProgramDB) -> List[Instance]:
+    """A result cache holds the rows of every evaluation that filled it, the false rows of one that asked for them (the left side of
+    an or_) included.  An evaluation that did not ask for false rows does not test the truth of what it is handed, so the replay
+    itself drops false rows unless the evaluation it answers asked for them: (a) the replay helper skips a false row when it was
+    not asked for; (b) every replay is told what the evaluating path it stands for tells the operand."""
+    from ..boolexpr import eval_bool
+    out = []
+    bo = db.cls("BinaryOperator")
+    helper = bo.methods.get("yield_final_output_from_cache")
+    if helper is None:
+        raise AnalysisError("BinaryOperator.yield_final_output_from_cache not found")
+    loops = [l for l in own_nodes(helper.node) if isinstance(l, ast.For) and isinstance(l.iter, ast.Call) and call_attr(l.iter) == "retrieve"]
+    if len(loops) != 1 or not (isinstance(loops[0].target, ast.Tuple) and len(loops[0].target.elts) == 2):
+        raise AnalysisError("yield_final_output_from_cache: the loop over the retrieved (row, truth) pairs was not found")
+    flag = unparse(loops[0].target.elts[1])
+    asked = next((p for p in helper.params if "yield_when_false" in p or "false" in p.lower() and p != flag), None)
+
+    def atom(e):
+        u = unparse(e)
+        if u == flag:
+            return "F"
+        if asked and u == asked:
+            return "ASKED"
+        if isinstance(e, ast.Call) and call_attr(e) == "_is_duplicate_output_":
+            return "D"
+        if isinstance(e, ast.Name) and e.id in helper.params:
+            return "p:" + e.id
+        return None
+    skips = [i for i in ast.walk(loops[0]) if isinstance(i, ast.If) and i.body and isinstance(i.body[-1], ast.Continue)]
+    ok_a = False
+    for i in skips:
+        try:
+            env = {"F": True, "ASKED": False, "D": False}
+            env.update({"p:" + p: False for p in helper.params})
+            if bool(eval_bool(i.test, atom, env)):
+                env2 = dict(env, ASKED=True)
+                env3 = dict(env, F=False)
+                if not bool(eval_bool(i.test, atom, env2)) and not bool(eval_bool(i.test, atom, env3)):
+                    ok_a = True
+        except (AnalysisError, KeyError):
+            continue
+    out.append(inst("REPLAY-FALSE-ASKED", HOLDS if ok_a else VIOLATION, helper, "BinaryOperator.yield_final_output_from_cache[false rows only when asked for]",
+                    "a replayed false row is skipped when the evaluation that is answered did not ask for false rows" if ok_a else
+                    "every stored row is handed on, false ones included, whatever the evaluation that is answered from the cache asked for: a comparison object that was "
+                    "once the left side of an or_ (which stores its false rows) and is evaluated again inside a conjunction hands the conjunction false rows, which it "
+                    "takes for true - c = l.a == x shared by or_(c, …) and and_(…, c, …): 9 rows with caching, 3 without", line=loops[0].lineno))
+    # (b)
+    n = 0
+    se = db.cls("SymbolicExpression")
+    for c in sorted(se.all_subclasses(), key=lambda k: k.qualname):
+        for m in c.methods.values():
+            if m.cls is not c or not m.is_generator:
+                continue
+            for call in own_calls(m):
+                if call_attr(call) != "yield_final_output_from_cache":
+                    continue
+                n += 1
+                amap = bind_args(fn_params(helper), call)
+                given = amap.get(asked) if asked else None
+                cexpr = amap.get("cache")
+                # what the evaluating path tells the operand the cache stands for
+                operand = None
+                if cexpr is not None and isinstance(cexpr, ast.Attribute) and cexpr.attr.split("_")[0] in ("left", "right"):
+                    operand = "self." + cexpr.attr.split("_")[0]
+                want = None
+                if operand is not None:
+                    for ec in own_calls(m):
+                        if call_attr(ec) in ("_evaluate__", "_evaluate_") and unparse(ec.func.value) == operand:
+                            kw = next((k.value for k in ec.keywords if k.arg == "yield_when_false"), None)
+                            want = unparse(kw) if kw is not None else "False"
+                else:
+                    want = "yield_when_false" if "yield_when_false" in m.params else None
+                ok = given is not None and want is not None and unparse(given) == want
+                out.append(inst("REPLAY-FALSE-ASKED", HOLDS if ok else VIOLATION, m, f"{m.short}[{unparse(call)[:46]}]",
+                                f"the replay is told `{unparse(given)}`, what the evaluating path tells {operand or 'itself'}" if ok else
+                                f"`{unparse(call)[:70]}` is told `{unparse(given) if given is not None else 'nothing (default: hand on false rows)'}` where the evaluating path it "
+                                f"stands for passes `{want}`: on a cache hit false rows are handed on that the evaluation would not have produced", line=call.lineno))
+    if n < 4:
+        raise AnalysisError(f"only {n} replay call(s) found")
     return out
